@@ -346,7 +346,24 @@ func Funcs() map[string]function.Function {
 		"toset":    funcToSet,
 		"keys":     funcKeys,
 		"ns::id":   funcIdentity,
+		// functions whose parameters are typed collections: the conversion of an argument descends into its
+		// elements (not used by the random generators)
+		"mapnum":  typedParam(cty.Map(cty.Number)),
+		"listnum": typedParam(cty.List(cty.Number)),
+		"objab":   typedParam(cty.Object(map[string]cty.Type{"a": cty.Number, "b": cty.String})),
+		"nested":  typedParam(cty.Map(cty.Map(cty.Number))),
+		"setnum":  typedParam(cty.Set(cty.Number)),
 	}
+}
+
+func typedParam(t cty.Type) function.Function {
+	return function.New(&function.Spec{
+		Params: []function.Parameter{{Name: "v", Type: t, AllowMarked: true, AllowNull: true, AllowUnknown: true}},
+		Type:   function.StaticReturnType(cty.Number),
+		Impl: func(args []cty.Value, _ cty.Type) (cty.Value, error) {
+			return cty.NumberIntVal(int64(args[0].LengthInt())).WithSameMarks(args[0]), nil
+		},
+	})
 }
 
 // FuncNames lists the function names (sorted).
